@@ -1,31 +1,47 @@
 // simrewrite copies a working tree of the repository under test into a
-// scratch directory and substitutes package sync by the simulator's shim in
-// its non-test Go files. Optionally it inserts sync.SimPoint(n) before every
-// statement of selected files (never inside the body of a range statement).
+// scratch directory and, in its non-test Go files,
 //
-//	simrewrite -src /repo -dst /tmp/x/repo [-pyield valid/cache.go,...] [-osshim file/witre.go,...]
+//   - substitutes package sync by the simulator's shim (import rewrite),
 //
-// Exit status 2 = the tree cannot be simulated (e.g. it starts goroutines).
+//   - makes iteration over Go maps a decision of the simulator: "for k, v :=
+//     range m" over a map and "x.MapRange()" on a reflect.Value go through
+//     helpers of the shim (types are taken from go/types, fed with the export
+//     data `go list -export` produces for the unmodified copy),
+//
+//   - optionally inserts simshim.SimPoint(line) before every statement of
+//     selected files (never inside the body of a range statement).
+//
+//     simrewrite -src /repo -dst /tmp/x/repo [-pyield valid/cache.go,...]
+//
+// Exit status 2 = the tree cannot be simulated (does not build, starts goroutines).
 package main
 
 import (
+	"bytes"
+	"encoding/json"
 	"flag"
 	"fmt"
 	"go/ast"
+	"go/importer"
 	"go/parser"
 	"go/token"
+	"go/types"
+	"io"
 	"io/fs"
 	"os"
+	"os/exec"
 	"path/filepath"
+	"regexp"
 	"sort"
 	"strings"
 )
 
 const shimPath = "verifsim/simsync"
 
-type insertion struct {
-	off  int
-	text string
+type edit struct {
+	off, del int
+	text     string
+	prio     int // order among edits at the same offset
 }
 
 func fail(format string, a ...interface{}) {
@@ -33,10 +49,21 @@ func fail(format string, a ...interface{}) {
 	os.Exit(2)
 }
 
+type listedPkg struct {
+	Dir        string
+	ImportPath string
+	Export     string
+	GoFiles    []string
+	Standard   bool
+	Module     *struct{ Main bool }
+	Error      *struct{ Err string }
+}
+
 func main() {
 	src := flag.String("src", "/repo", "source tree")
 	dst := flag.String("dst", "", "destination directory (created)")
 	pyield := flag.String("pyield", "", "comma separated relative paths that get statement-level yields")
+	nomaps := flag.Bool("nomaps", false, "leave map iteration alone")
 	flag.Parse()
 	if *dst == "" {
 		fail("-dst is required")
@@ -47,8 +74,7 @@ func main() {
 			py[filepath.Clean(p)] = true
 		}
 	}
-	rewritten := 0
-	sites := 0
+	// 1. verbatim copy (no .git, no tests)
 	err := filepath.WalkDir(*src, func(path string, d fs.DirEntry, err error) error {
 		if err != nil {
 			return err
@@ -60,53 +86,132 @@ func main() {
 			}
 			return os.MkdirAll(filepath.Join(*dst, rel), 0o755)
 		}
-		if !d.Type().IsRegular() {
-			return nil
-		}
-		if strings.HasSuffix(rel, "_test.go") {
+		if !d.Type().IsRegular() || strings.HasSuffix(rel, "_test.go") {
 			return nil
 		}
 		data, err := os.ReadFile(path)
 		if err != nil {
 			return err
 		}
-		if strings.HasSuffix(rel, ".go") {
-			out, n, changed := rewrite(rel, data, py[filepath.Clean(rel)])
-			if changed {
-				rewritten++
-			}
-			sites += n
-			data = out
-		}
-		if rel == "go.mod" {
-			data = append(data, []byte("\nrequire verifsim/simsync v0.0.0\n")...)
-		}
 		return os.WriteFile(filepath.Join(*dst, rel), data, 0o644)
 	})
 	if err != nil {
 		fail("%v", err)
 	}
-	fmt.Printf("simrewrite: %d files use the shim, %d yield sites\n", rewritten, sites)
+	// 2. export data of the unmodified copy
+	var pkgs []*listedPkg
+	exports := map[string]string{}
+	cmd := exec.Command("go", "list", "-export", "-deps", "-json=Dir,ImportPath,Export,GoFiles,Standard,Module,Error", "./...")
+	cmd.Dir = *dst
+	cmd.Env = append(os.Environ(), "GOFLAGS=-mod=mod", "GOPROXY=off", "GOSUMDB=off", "GOTOOLCHAIN=local")
+	var stderr bytes.Buffer
+	cmd.Stderr = &stderr
+	out, err := cmd.Output()
+	if err != nil {
+		fail("the copy of %s does not build:\n%s", *src, stderr.String())
+	}
+	dec := json.NewDecoder(bytes.NewReader(out))
+	for {
+		p := &listedPkg{}
+		if err := dec.Decode(p); err == io.EOF {
+			break
+		} else if err != nil {
+			fail("go list: %v", err)
+		}
+		if p.Error != nil {
+			fail("the copy of %s does not build: %s: %s", *src, p.ImportPath, p.Error.Err)
+		}
+		if p.Export != "" {
+			exports[p.ImportPath] = p.Export
+		}
+		if p.Module != nil && p.Module.Main {
+			pkgs = append(pkgs, p)
+		}
+	}
+	// 3. per package: parse, type-check, edit
+	fset := token.NewFileSet()
+	imp := importer.ForCompiler(fset, "gc", func(path string) (io.ReadCloser, error) {
+		f, ok := exports[path]
+		if !ok {
+			return nil, fmt.Errorf("no export data for %s", path)
+		}
+		return os.Open(f)
+	})
+	rewritten, sites, ranges, iters := 0, 0, 0, 0
+	for _, p := range pkgs {
+		var files []*ast.File
+		var names []string
+		for _, gf := range p.GoFiles {
+			if strings.HasSuffix(gf, "_test.go") {
+				continue
+			}
+			full := filepath.Join(p.Dir, gf)
+			f, err := parser.ParseFile(fset, full, nil, parser.ParseComments)
+			if err != nil {
+				fail("%v", err)
+			}
+			files = append(files, f)
+			names = append(names, full)
+		}
+		info := &types.Info{Types: map[ast.Expr]types.TypeAndValue{}}
+		conf := types.Config{Importer: imp, Error: func(error) {}}
+		conf.Check(p.ImportPath, fset, files, info)
+		for i, f := range files {
+			rel, _ := filepath.Rel(*dst, names[i])
+			data, _ := os.ReadFile(names[i])
+			out, st := rewrite(fset, f, info, rel, data, py[filepath.Clean(rel)], !*nomaps)
+			if st.changed {
+				rewritten++
+				if err := os.WriteFile(names[i], out, 0o644); err != nil {
+					fail("%v", err)
+				}
+			}
+			sites += st.sites
+			ranges += st.ranges
+			iters += st.iters
+		}
+	}
+	// 4. go.mod: require the shim; generics in the inserted helpers need go >= 1.20 (interface keys satisfying comparable)
+	gm := filepath.Join(*dst, "go.mod")
+	data, err := os.ReadFile(gm)
+	if err != nil {
+		fail("%v", err)
+	}
+	re := regexp.MustCompile(`(?m)^go 1\.(\d+)(\.\d+)?\s*$`)
+	if m := re.FindSubmatch(data); m != nil {
+		var minor int
+		fmt.Sscan(string(m[1]), &minor)
+		if minor < 20 {
+			data = re.ReplaceAll(data, []byte("go 1.20"))
+		}
+	} else {
+		data = append(data, []byte("\ngo 1.20\n")...)
+	}
+	data = append(data, []byte("\nrequire "+shimPath+" v0.0.0\n")...)
+	if err := os.WriteFile(gm, data, 0o644); err != nil {
+		fail("%v", err)
+	}
+	fmt.Printf("simrewrite: %d files rewritten, %d yield sites, %d map ranges, %d MapRange calls\n", rewritten, sites, ranges, iters)
 }
 
-func rewrite(rel string, data []byte, yields bool) ([]byte, int, bool) {
-	fset := token.NewFileSet()
-	f, err := parser.ParseFile(fset, rel, data, parser.ParseComments)
-	if err != nil {
-		// leave it alone: the compiler will say what is wrong (exit 2 of the build step)
-		return data, 0, false
-	}
-	var ins []insertion
+type stats struct {
+	changed              bool
+	sites, ranges, iters int
+}
+
+func rewrite(fset *token.FileSet, f *ast.File, info *types.Info, rel string, data []byte, yields, maps bool) ([]byte, stats) {
+	var st stats
+	var eds []edit
 	off := func(p token.Pos) int { return fset.Position(p).Offset }
-	usesSync := false
+	text := func(a, b token.Pos) string { return string(data[off(a):off(b)]) }
+	needShim := false
 	for _, im := range f.Imports {
 		if im.Path.Value == `"sync"` {
-			usesSync = true
+			t := `"` + shimPath + `"`
 			if im.Name == nil {
-				ins = append(ins, insertion{off(im.Path.Pos()), "sync "})
+				t = "sync " + t
 			}
-			// replace the literal: delete is emulated by a marker handled below
-			ins = append(ins, insertion{off(im.Path.Pos()), "\x00" + fmt.Sprint(len(im.Path.Value))})
+			eds = append(eds, edit{off: off(im.Path.Pos()), del: len(im.Path.Value), text: t})
 		}
 	}
 	ast.Inspect(f, func(n ast.Node) bool {
@@ -115,14 +220,81 @@ func rewrite(rel string, data []byte, yields bool) ([]byte, int, bool) {
 		}
 		return true
 	})
-	sites := 0
+	if maps {
+		n := 0
+		ast.Inspect(f, func(node ast.Node) bool {
+			switch x := node.(type) {
+			case *ast.RangeStmt:
+				tv, ok := info.Types[x.X]
+				if !ok || tv.Type == nil {
+					return true
+				}
+				if _, isMap := tv.Type.Underlying().(*types.Map); !isMap {
+					return true
+				}
+				n++
+				st.ranges++
+				needShim = true
+				ev := fmt.Sprintf("simE%d_", n)
+				hdrFrom := x.X.Pos()
+				if x.Key != nil {
+					hdrFrom = x.Key.Pos()
+				} else {
+					// "for range m": the keyword "range" precedes X
+					hdrFrom = x.For + token.Pos(len("for"))
+					for data[off(hdrFrom)] == ' ' || data[off(hdrFrom)] == '\t' {
+						hdrFrom++
+					}
+				}
+				hdr := fmt.Sprintf("_, %s := range simshim.MapEntries(%s)", ev, text(x.X.Pos(), x.X.End()))
+				eds = append(eds, edit{off: off(hdrFrom), del: off(x.X.End()) - off(hdrFrom), text: hdr})
+				// first statement of the body: skip entries deleted meanwhile, then bind the loop variables
+				body := " if !" + ev + ".Live() { continue }; "
+				tok := ":="
+				if x.Tok == token.ASSIGN {
+					tok = "="
+				}
+				isBlank := func(e ast.Expr) bool {
+					id, ok := e.(*ast.Ident)
+					return e == nil || (ok && id.Name == "_")
+				}
+				switch {
+				case !isBlank(x.Key) && !isBlank(x.Value):
+					body += fmt.Sprintf("%s, %s %s %s.K, %s.V(); ", text(x.Key.Pos(), x.Key.End()), text(x.Value.Pos(), x.Value.End()), tok, ev, ev)
+				case !isBlank(x.Key):
+					body += fmt.Sprintf("%s %s %s.K; ", text(x.Key.Pos(), x.Key.End()), tok, ev)
+				case !isBlank(x.Value):
+					body += fmt.Sprintf("%s %s %s.V(); ", text(x.Value.Pos(), x.Value.End()), tok, ev)
+				}
+				eds = append(eds, edit{off: off(x.Body.Lbrace) + 1, text: body, prio: -1})
+			case *ast.CallExpr:
+				sel, ok := x.Fun.(*ast.SelectorExpr)
+				if !ok || sel.Sel.Name != "MapRange" || len(x.Args) != 0 {
+					return true
+				}
+				tv, ok := info.Types[sel.X]
+				if !ok || tv.Type == nil || tv.Type.String() != "reflect.Value" {
+					return true
+				}
+				st.iters++
+				needShim = true
+				eds = append(eds, edit{off: off(x.Pos()), del: off(x.End()) - off(x.Pos()), text: "simshim.MapRange(" + text(sel.X.Pos(), sel.X.End()) + ")"})
+			}
+			return true
+		})
+	}
 	if yields {
 		var walkList func(list []ast.Stmt)
 		var walkStmt func(s ast.Stmt)
 		walkList = func(list []ast.Stmt) {
 			for _, s := range list {
-				sites++
-				ins = append(ins, insertion{off(s.Pos()), fmt.Sprintf("sync.SimPoint(%d); ", fset.Position(s.Pos()).Line)})
+				switch s.(type) {
+				case *ast.CaseClause, *ast.CommClause:
+				default:
+					st.sites++
+					needShim = true
+					eds = append(eds, edit{off: off(s.Pos()), text: fmt.Sprintf("simshim.SimPoint(%d); ", fset.Position(s.Pos()).Line)})
+				}
 				walkStmt(s)
 			}
 		}
@@ -138,8 +310,7 @@ func rewrite(rel string, data []byte, yields bool) ([]byte, int, bool) {
 			case *ast.ForStmt:
 				walkList(x.Body.List)
 			case *ast.RangeStmt:
-				// never inside: iteration over a Go map has a random order, the
-				// number of yields would differ between two executions of one seed
+				// never inside: the number of yields would depend on the iteration
 			case *ast.SwitchStmt:
 				walkList(x.Body.List)
 			case *ast.TypeSwitchStmt:
@@ -147,8 +318,6 @@ func rewrite(rel string, data []byte, yields bool) ([]byte, int, bool) {
 			case *ast.SelectStmt:
 				walkList(x.Body.List)
 			case *ast.CaseClause:
-				// statements of a case body: insert, but the clause itself got
-				// an insertion at "case", which must be undone
 				walkList(x.Body)
 			case *ast.CommClause:
 				walkList(x.Body)
@@ -157,56 +326,34 @@ func rewrite(rel string, data []byte, yields bool) ([]byte, int, bool) {
 			}
 		}
 		for _, d := range f.Decls {
-			fd, ok := d.(*ast.FuncDecl)
-			if !ok || fd.Body == nil {
-				continue
+			if fd, ok := d.(*ast.FuncDecl); ok && fd.Body != nil {
+				walkList(fd.Body.List)
 			}
-			walkList(fd.Body.List)
-		}
-		// case/comm clauses are "statements" of a switch body list: remove the
-		// insertions placed in front of the keywords "case"/"default"
-		bad := map[int]bool{}
-		ast.Inspect(f, func(n ast.Node) bool {
-			switch x := n.(type) {
-			case *ast.CaseClause:
-				bad[off(x.Pos())] = true
-			case *ast.CommClause:
-				bad[off(x.Pos())] = true
-			}
-			return true
-		})
-		kept := ins[:0]
-		for _, in := range ins {
-			if bad[in.off] && strings.HasPrefix(in.text, "sync.SimPoint") {
-				sites--
-				continue
-			}
-			kept = append(kept, in)
-		}
-		ins = kept
-		if !usesSync && sites > 0 {
-			ins = append(ins, insertion{off(f.Name.End()), "\nimport sync \"" + shimPath + "\"\n"})
-			usesSync = true
 		}
 	}
-	if len(ins) == 0 {
-		return data, 0, false
+	if needShim {
+		eds = append(eds, edit{off: off(f.Name.End()), text: "\n\nimport simshim \"" + shimPath + "\"\n"})
 	}
-	sort.SliceStable(ins, func(i, j int) bool { return ins[i].off < ins[j].off })
+	if len(eds) == 0 {
+		return data, st
+	}
+	st.changed = true
+	sort.SliceStable(eds, func(i, j int) bool {
+		if eds[i].off != eds[j].off {
+			return eds[i].off < eds[j].off
+		}
+		return eds[i].prio < eds[j].prio
+	})
 	var out []byte
 	pos := 0
-	for _, in := range ins {
-		out = append(out, data[pos:in.off]...)
-		pos = in.off
-		if strings.HasPrefix(in.text, "\x00") {
-			var n int
-			fmt.Sscan(in.text[1:], &n)
-			out = append(out, []byte(`"`+shimPath+`"`)...)
-			pos += n
-			continue
+	for _, e := range eds {
+		if e.off < pos {
+			fail("%s: overlapping edits at offset %d", rel, e.off)
 		}
-		out = append(out, in.text...)
+		out = append(out, data[pos:e.off]...)
+		out = append(out, e.text...)
+		pos = e.off + e.del
 	}
 	out = append(out, data[pos:]...)
-	return out, sites, usesSync
+	return out, st
 }
